@@ -73,6 +73,8 @@ def _root_spec(full, S):
             ["d/b.txt", "f", "zip b\n", {}],
             ["box.mbox", "f", sites.mbox_text(["zip mail"]), {}],
             ["inner.zip", "f", _inner_zip(), {}],
+            # what 'zip -r' of a directory that was served before leaves in an archive: the nested archive's index cache
+            [".cache.pygopherd.zip3.inner.zip", "f", "stale index\n", {}],
             ["lnk", "l", "../../secret.txt", {}],
             ["abs", "l", "/etc/passwd", {}],
             ["abs2", "l", S + "/secret.txt", {}],
@@ -121,6 +123,7 @@ def _outside_spec(variant):
             [base + "t.html", "f", "<p>%s</p>" % tag],
             [base + "lnk", "f", tag],
             [base + "arc.zip", "f", z],
+            [base + ".cache.pygopherd.zip3.inner.zip", "f", tag],
         ] + sites.maildir_spec(base + "md", [tag + " md"])
     spec.append(["cwd/keep", "f", "x"])
     # the root's own parent directory is a Maildir, and holds an mbox named like the root (targets of '/..|...' requests)
